@@ -31,7 +31,7 @@ m = {
         "enable": "go test -c -tags verif (build tag); harness test files are injected with -overlay, /repo is never written",
         "baseline_off_cmd": "cd /repo && go test -mod=mod -json -vet=off -count=1 -timeout 25m ./...",
         "source_commits": hook_commits,
-        "add_only": True,
+        "add_only": False,
     },
     "engines": [
         {"name": "harness/server", "path": "harness/server", "serves_properties": sorted(k for k, v in CHECKS.items() if v.get("engine", "harness/server") == "harness/server"),
